@@ -215,12 +215,16 @@ WritePost(s, cv, c, o) ==
              iw   == IntWidth(Sub(s.fmt))
              f2i  == c.T \in {"f", "d"} /\ iw > 0 /\ uw >= iw /\ "dy" \in DOMAIN c /\ c.dy
                      /\ (IF c.T = "f" THEN s.nf = 0 ELSE s.nd = 0)
-                     /\ \A i \in 1..Len(c.v) : /\ Len(c.v[i]) = 2 /\ c.v[i][2] >= 0 /\ DyBits(c.v[i]) <= uw - 1
-                                               /\ (c.v[i][1] * Pow2(c.v[i][2])) % Pow2(uw - iw) = 0
+                     /\ \A i \in 1..Len(c.v) : /\ Len(c.v[i]) = 2 /\ c.v[i][2] >= 0
+                                               /\ \/ (DyBits(c.v[i]) <= uw - 1 /\ (c.v[i][1] * Pow2(c.v[i][2])) % Pow2(uw - iw) = 0)
+                                                  \/ (DyBits(c.v[i]) >= uw /\ s.cl = 1)     \* |v| >= 2^(u-1) with clipping on: saturates (C02)
              tag  == IF Lossless(c.T, Sub(s.fmt), c.v) THEN c.T ELSE IF i2f THEN (IF Sub(s.fmt) = S_FLOAT THEN "f" ELSE "d") ELSE IF f2i THEN "i" ELSE "-"
              wv   == IF Lossless(c.T, Sub(s.fmt), c.v) THEN c.v
                      ELSE IF i2f THEN [i \in 1..Len(c.v) |-> DyNorm(c.v[i], 0)]
-                     ELSE IF f2i THEN [i \in 1..Len(c.v) |-> c.v[i][1] * Pow2(c.v[i][2]) * Pow2(32 - uw)]
+                     ELSE IF f2i THEN [i \in 1..Len(c.v) |->
+                                          IF DyBits(c.v[i]) <= uw - 1 THEN c.v[i][1] * Pow2(c.v[i][2]) * Pow2(32 - uw)
+                                          ELSE IF c.v[i][1] > 0 THEN 2147483647 - (Pow2(32 - iw) - 1)           \* the largest w-bit code, left justified
+                                          ELSE -2147483647 - 1]
                      ELSE c.v
              over == s.wpos < s.frames
          IN [s  |-> [Adopt(s, o) EXCEPT !.hw = TRUE],
